@@ -38,7 +38,11 @@ func GenVal(name, kind string, cap int) Val {
 		}
 		return Val{Kind: "L", L: l}
 	case "M":
-		return Val{Kind: "M", M: map[string]Val{"k": {Kind: "S", S: str(name+".mk", 1)}}}
+		m := map[string]Val{"k": {Kind: "S", S: str(name+".mk", 1)}}
+		if nd.Choice(name+".mlen", 2) == 1 {
+			m["j"] = Val{Kind: "S", S: str(name+".mj", 1)}
+		}
+		return Val{Kind: "M", M: m}
 	case "SS":
 		ss := []string{str(name+".ss0", 1)}
 		if nd.Choice(name+".sslen", 2) == 1 {
